@@ -408,23 +408,23 @@ type ViolationReport struct {
 }
 
 type Result struct {
-	Scenario   string              `json:"scenario"`
-	Runs       int                 `json:"runs"`
-	WallS      float64             `json:"wall_s"`
-	Evals      map[string]int      `json:"evals"`
-	Sigs       map[string][]uint64 `json:"sigs"`
-	Faults     map[string]int      `json:"faults"`
-	Probes     map[string]int      `json:"probes"`
-	SimSec     float64             `json:"sim_seconds"`
-	Violations []ViolationReport   `json:"violations"`
-	ViolCount  map[string]int      `json:"violation_counts"` // by key, all runs
-	Samples    []map[string]any    `json:"samples"`
-	SelfTests  int                 `json:"selftests"`
-	HarnessErr string              `json:"harness_error,omitempty"`
-	Replayed   *ReplayResult       `json:"replayed,omitempty"`
-	Unreproduced []string          `json:"unreproduced,omitempty"`
-	FirstSeed  uint64              `json:"first_seed"`
-	LastSeed   uint64              `json:"last_seed"`
+	Scenario     string              `json:"scenario"`
+	Runs         int                 `json:"runs"`
+	WallS        float64             `json:"wall_s"`
+	Evals        map[string]int      `json:"evals"`
+	Sigs         map[string][]uint64 `json:"sigs"`
+	Faults       map[string]int      `json:"faults"`
+	Probes       map[string]int      `json:"probes"`
+	SimSec       float64             `json:"sim_seconds"`
+	Violations   []ViolationReport   `json:"violations"`
+	ViolCount    map[string]int      `json:"violation_counts"` // by key, all runs
+	Samples      []map[string]any    `json:"samples"`
+	SelfTests    int                 `json:"selftests"`
+	HarnessErr   string              `json:"harness_error,omitempty"`
+	Replayed     *ReplayResult       `json:"replayed,omitempty"`
+	Unreproduced []string            `json:"unreproduced,omitempty"`
+	FirstSeed    uint64              `json:"first_seed"`
+	LastSeed     uint64              `json:"last_seed"`
 }
 
 type ReplayResult struct {
